@@ -84,6 +84,9 @@ def observe(cmd, args):
         x, y = parse(a), parse(c)
         if x is not None and y is not None:
             if (canonicalize_version(a) == canonicalize_version(c)) != (x == y): return "canonical strings %s equality: %r %r" % ("miss" if x == y else "conflate", a, c)
+            same = (x.epoch, x.release, x.pre, x.post, x.dev, x.local) == (y.epoch, y.release, y.pre, y.post, y.dev, y.local)
+            if (canonicalize_version(a, strip_trailing_zero=False) == canonicalize_version(c, strip_trailing_zero=False)) != same or (str(x) == str(y)) != same:
+                return "str() / unstripped canonical string is not an exact invariant of the components: %r %r" % (a, c)
         return "ok"
     if cmd == "law.v.roundtrip":
         v = parse(args[0])
@@ -97,6 +100,12 @@ def observe(cmd, args):
         if p is None or bs is None: return "public/base_version does not parse"
         if (p.epoch, p.release, p.pre, p.post, p.dev, p.local) != (v.epoch, v.release, v.pre, v.post, v.dev, None): return "public is not v without local"
         if (bs.epoch, bs.release, bs.pre, bs.post, bs.dev, bs.local) != (v.epoch, v.release, None, None, None, None): return "base_version is not epoch+release"
+        # theorems C02 10-12: public / base_version are str() of the reduced version and idempotent; canonicalize_version of str(v) and of the text agree
+        if str(p) != v.public or p.public != v.public: return "public is not the normal form of the version without local"
+        if str(bs) != v.base_version or bs.base_version != v.base_version or p.base_version != v.base_version: return "base_version is not a normal form / not idempotent"
+        if v.local is None and v.public != str(v): return "public differs from str() without a local label"
+        for z in (True, False):
+            if canonicalize_version(str(v), strip_trailing_zero=z) != canonicalize_version(args[0], strip_trailing_zero=z): return "canonicalize_version differs between the text and str(v)"
         return "ok"
     if cmd == "law.v.rank":
         # independent oracle: args = [a, b, rel] with rel in "<=>" computed by the harness from the structured versions (gen.rank)
